@@ -1111,6 +1111,8 @@ impl TransactionalMemory {
         // records to DATA_ALLOCATED_TABLE before reaching here.
         self.unpersisted.lock().unwrap().clear();
 
+        #[cfg(redb_verif)]
+        crate::verif_sched::pause("mem.commit.flushed");
         let mut state = self.state.lock().unwrap();
         assert_eq!(
             state.header.secondary_slot().transaction_id,
